@@ -22,7 +22,8 @@ EXPLANATION = (
     "entry points. ABORT: inventory from all exported non-gz entry points. CONST: the exported symbol set covers the prototypes of "
     "the vendored zlib.h; validation constants of deflateInit2/inflateReset2/inflatePrime/deflatePrime/deflateParams equal zlib-ng's "
     "([-15,-8]/[8,15]/+16 window bits, memLevel 1..9, level -1->6 and 0..9, windowBits 8 -> 9 only for zlib wrapping, prime limits). "
-    "Call-order semantics and data movement are not decided.")
+    "Call-order semantics and data movement are not decided. "
+    "ATOM/validation deflateParams:flush-error: the internal Z_BLOCK flush aborts deflateParams only on Z_STREAM_ERROR (zlib-ng text). SIB/ref-writes for the API functions with a zlib-ng body (Params, Tune, Prime, Sync, SetDictionary, ResetKeep, Reset2).")
 
 CLAIM = dict(
     text="Static intraprocedural null-taint over MIR for all 129 pointer parameters of the C ABI, fallible-conversion and "
@@ -180,6 +181,14 @@ def validation(ck, P):
         rej = [(sig.sig(a, pm), rv) for a, rv, b, ln in atoms.rejections(pm)]
         ck.decide(any(rv == "StreamError" and s.rel == "notrange" and s.lo == 0 and s.hi == 9 for s, rv in rej), R, "deflateParams:level", "0..=9", "deflateParams level range changed", where(pm))
         ck.decide(any(rv == "BufError" and "avail_in" in s.names for s, rv in rej), R, "deflateParams:buf", "Z_BUF_ERROR when input remains after the flush", "deflateParams lost its Z_BUF_ERROR condition", where(pm))
+        # zlib-ng: err = deflate(strm, Z_BLOCK); if (err == Z_STREAM_ERROR) return err;   - Z_BUF_ERROR of that flush is ignored
+        tests = [sig.sig(a, pm) for a, b, tb in atoms.all_atoms(pm)]
+        tests = [s_ for s_ in tests if any(k.split("::")[-1] == "deflate" for k in s_.calls) and s_.rel in ("Eq", "Ne")]
+        only_se = bool(tests) and all("StreamError" in s_.names for s_ in tests)
+        ck.decide(only_se, R, "deflateParams:flush-error", "the internal Z_BLOCK flush aborts deflateParams only on Z_STREAM_ERROR",
+                  "deflateParams compares the result of its internal deflate(Z_BLOCK) with %s: zlib-ng returns early only for "
+                  "Z_STREAM_ERROR (a Z_BUF_ERROR from a flush with nothing to do is ignored and the parameters are still changed)"
+                  % sorted({n for s_ in tests for n in s_.names if n[:1].isupper()}), where(pm))
     vc = P.fn(SYS + "is_version_compatible")
     if ck.anchor("fn is_version_compatible", vc):
         ck.use_fn(vc)
@@ -208,6 +217,10 @@ def run(ck):
     api = {f.path for f in P.fns.values() if f.crate == "zlib_rs" and f.j.get("vis") == "Public" and P.callers_of(f.path) & set(roots)}
     abort.check(ck, P, roots, "ABORT/c-api", abort_table.JUSTIFIED, api_fns=api, label="C API")
     validation(ck, P)
+    from .. import refwrites
+    ck.floor("SIB/ref-writes", refwrites.check(ck, P, "SIB/ref-writes", only={"deflate.c:deflateParams", "deflate.c:deflateTune",
+             "deflate.c:deflatePrime", "inflate.c:inflatePrime", "inflate.c:inflateSync", "deflate.c:deflateSetDictionary",
+             "inflate.c:inflateSetDictionary", "deflate.c:deflateResetKeep", "inflate.c:inflateResetKeep", "inflate.c:inflateReset2"}), 30)
     P5 = prog("K5")
     ck.configs.add("K5")
     symbols(ck, P5)
